@@ -305,7 +305,7 @@ func genTableCase(r *Rng, maxOps int, mai int) []Op {
 			if mai < 1000 {
 				return "i" + strconv.Itoa(mai+r.Range(-2, 2))
 			}
-			return Pick(r, []string{"i67108864", "i67108865", "i9007199254740992", "i4294967296", "i-9007199254740992"})
+			return Pick(r, []string{"i67108866", "i67108865", "i9007199254740992", "i4294967296", "i-9007199254740992"}) // the exact boundary is exercised with the tunable lowered (a 1 GiB array otherwise)
 		case c < 63:
 			return encNum(float64(r.Range(-4, 8)) + Pick(r, []float64{0.5, 0.25, -0.5}))
 		case c < 80:
